@@ -208,10 +208,11 @@ def _get_fill_value(dtype, fill_value):
             return np.nan
         # This is madness, but npg checks that fill_value is compatible
         # with array dtype even if the fill_value is never used.
+        elif np.issubdtype(dtype, np.timedelta64):
+            # np.timedelta64 is a subclass of np.integer: check it first
+            return np.timedelta64("NaT")
         elif np.issubdtype(dtype, np.integer):
             return get_neg_infinity(dtype, min_for_int=True)
-        elif np.issubdtype(dtype, np.timedelta64):
-            return np.timedelta64("NaT")
         elif np.issubdtype(dtype, np.datetime64):
             return np.datetime64("NaT")
         else:
